@@ -80,6 +80,8 @@ type checkCtx struct {
 	missing          []string
 	extraAssumptions []string
 	knownObls        []string
+	crossChecked     int      // thorough: obligations discharged by at least two solvers independently
+	singleSolver     []string // thorough: obligations only one solver could discharge
 }
 
 func cmdCheck(args []string) {
@@ -350,6 +352,30 @@ func (cc *checkCtx) verifyFn(name string, fn *ssa.Function) {
 		cc.solverS += r.Ans.Time
 		s := sample{Obligation: r.O.Name, Kind: r.O.Kind, Answer: r.Ans.Status, Solver: r.Ans.Solver, TimeS: round3(r.Ans.Time), VCBytes: len(r.Script), Source: trunc(r.O.Src, 200)}
 		cc.samples = append(cc.samples, s)
+		if r.Ans.Status == "unsat" && cc.tier == "thorough" && r.Ans.Solver != "trivial" && r.Script != "" {
+			// thorough: every discharged obligation is put to the other solvers as well; a second
+			// independent `unsat` is counted as a cross-check, a `sat` from any solver overrides
+			confirmed := 1
+			for _, sv := range solvers {
+				if sv.name == r.Ans.Solver {
+					continue
+				}
+				a2 := runSolvers(r.Script, cc.workDir, r.O.Name+"#x-"+sv.name, cc.timeoutS/2, []string{sv.name})
+				cc.solverS += a2.Time
+				if a2.Status == "unsat" {
+					confirmed++
+				} else if a2.Status == "sat" {
+					r.Ans = a2
+					confirmed = 0
+					break
+				}
+			}
+			if confirmed >= 2 {
+				cc.crossChecked++
+			} else if confirmed == 1 {
+				cc.singleSolver = append(cc.singleSolver, r.O.Name)
+			}
+		}
 		if r.Ans.Status == "unsat" {
 			cc.nDis++
 			rep.Discharged++
@@ -505,6 +531,8 @@ func (cc *checkCtx) writeEvidence(wall float64, status string) {
 		"unmodelled_calls":                      keys(cc.unmod),
 		"notes":                                 keys(cc.notes),
 		"undecided":                             cc.undecided,
+		"cross_checked_by_two_solvers":          cc.crossChecked,
+		"discharged_by_one_solver_only":         cc.singleSolver,
 		"known_findings_seen":                   cc.knownSeen,
 		"known_finding_obligations_not_counted": cc.knownObls,
 		"vacuity":                               cc.vacuity,
